@@ -276,7 +276,8 @@ Qed.
 
 (* ------------------------------------------------------------------ two evaluations: the loss counter can be bypassed *)
 
-(* One task, two evaluations of it. Whenever the task is lost, the evaluation
+(* The accounting before 0540c52 (clo = false).
+   One task, two evaluations of it. Whenever the task is lost, the evaluation
    that did NOT hand it out notices first and resubmits it before the runner's
    waiter goroutine has looked at the task; that waiter then sees WAITING again
    and keeps waiting, so the loss is never counted by it. Five losses in a row of a
@@ -292,7 +293,7 @@ Theorem lost_limit_two_evaluators_refuted :
   exists g st0 rootss ls,
     wf g /\ Forall legal_label ls /\
     length (filter (fun l => match l with LSet 0 TLost => true | _ => false end) ls) = Z.to_nat max_consecutive_lost /\
-    let r := exec true g (init_sys st0 rootss) ls in
+    let r := exec_v false false g (init_sys st0 rootss) ls in
     (* every loss hit the task while it was handed out ... *)
     forallb (fun x => match fst (fst x) with
                       | LSet 0 TLost => st_eqb (wst (snd (fst x)) 0) TWaiting
@@ -308,3 +309,13 @@ Proof.
   split; [repeat constructor|].
   vm_compute. repeat split; reflexivity.
 Qed.
+
+(* The same schedule under the accounting of 0540c52: every loss is counted (by the
+   evaluation that resubmits, on behalf of the runner), the fifth puts the task in
+   ERR, and once the remaining goroutines have run both evaluations have failed. *)
+Theorem race_schedule_now_reports :
+  let r := exec_v true false [mkT [] []] (init_sys (fun _ => TInit) [[0]; [0]])
+                  (race_schedule ++ [LMain 0; LWait 1 0; LMain 1]) in
+  eres (get_ev (fst r) 0) = Some true /\ eres (get_ev (fst r) 1) = Some true /\
+  wst (sw (fst r)) 0 = TErr /\ wcl (sw (fst r)) 0 = max_consecutive_lost.
+Proof. vm_compute. repeat split; reflexivity. Qed.
